@@ -75,7 +75,7 @@ impl Prop for C15 {
         2500
     }
     fn rule(&self) -> String {
-        "cases = git diff of one file with 1-3 hunks of real code lines (rs, py, c, js, sh, toml, Makefile) x tagged option set (unified or side-by-side; each style with or without `syntax`) x ordered pair of syntax themes of the same light/dark class (or `none`) x a second file name of the same language (other stem/directory; Makefile in two directories or Makefile vs x.mk), also for an added / deleted file and plain `diff -u` output, and the same section followed by a section of another language or a name without language plus --default-language. Oracle (both runs decoded by the terminal model): every cell has the same character, background and attributes under both themes; its foreground may differ only where the style of the element that painted it (known from the tag) asks for `syntax`, and equals the configured foreground elsewhere; content rows are cell-for-cell identical after renaming within the language and for an unknown name under the matching default language; the rows of each hunk equal those of the hunk rendered alone. Non-trivial = >=1 row on which the two themes produce different foregrounds; distinct by hash of (input, argv, themes).".to_string()
+        "cases = git diff of one file with 1-3 hunks of real code lines (rs, py, c, js, sh, toml, Makefile, cmake) x tagged option set (unified or side-by-side; each style with or without `syntax`) x ordered pair of syntax themes of the same light/dark class (or `none`) x a second file name of the same language (other stem/directory; a whole file name the language registers vs a name with its extension: Makefile/GNUmakefile/Makefile.am vs x.mk, CMakeLists.txt vs x.cmake, Cargo.lock/Pipfile vs x.toml, SConstruct vs x.py), also for an added / deleted file and plain `diff -u` output, and the same section followed by a section of another language or a name without language plus --default-language. Oracle (both runs decoded by the terminal model): every cell has the same character, background and attributes under both themes; its foreground may differ only where the style of the element that painted it (known from the tag) asks for `syntax`, and equals the configured foreground elsewhere; content rows are cell-for-cell identical after renaming within the language and for an unknown name under the matching default language; the rows of each hunk equal those of the hunk rendered alone. Non-trivial = >=1 row on which the two themes produce different foregrounds; distinct by hash of (input, argv, themes).".to_string()
     }
     fn assumptions(&self) -> Vec<String> {
         vec![
